@@ -102,7 +102,12 @@ RRecip(a) == IF IsNaR(a) \/ a[1] = 0 THEN NaR
 RDiv(a, b) == RMul(a, RRecip(b))
 RPos(a)    == a[2] # 0 /\ a[1] > 0
 RIsZero(a) == a[2] # 0 /\ a[1] = 0
-RSum(f(_), S) == FoldSet(LAMBDA x, acc : RAdd(f(x), acc), ZERO, S)
+\* Sum of a sequence of rationals.  (No LAMBDA/FoldSet here on purpose: TLC re-evaluates every
+\* LET-bound name and operator parameter at each reference inside a LAMBDA body, which turns the
+\* linear algebra below from polynomial into exponential work.)
+RECURSIVE RSumTo(_, _)
+RSumTo(s, k) == IF k = 0 THEN ZERO ELSE RAdd(s[k], RSumTo(s, k - 1))
+RSumSeq(s) == RSumTo(s, Len(s))
 RECURSIVE RPow(_, _)
 RPow(a, k) == IF k = 0 THEN ONE ELSE RMul(a, RPow(a, k - 1))
 \* 0 < a < 10^-6: too close to the code's 1e-8 threshold to be modelled by "a <= 0"
@@ -111,19 +116,18 @@ Tiny(a) == RPos(a) /\ a[2] \div a[1] >= 1000000
 Idx(k) == [i \in 1..k |-> i]
 Rows(A) == DOMAIN A
 MatHasNaR(A) == \E i \in DOMAIN A : \E j \in DOMAIN A[i] : IsNaR(A[i][j])
-RMatMul(A, B) ==    \* B may have zero columns
+RMatMul(A, B) ==
   TLCEval([i \in DOMAIN A |-> [j \in DOMAIN B[1] |->
-             RSum(LAMBDA k : RMul(A[i][k], B[k][j]), DOMAIN B)]])
+             RSumSeq([k \in DOMAIN B |-> RMul(A[i][k], B[k][j])])]])
 
 \* determinant of the k x k minor rows[1..k] x cols[1..k] (Laplace along the last column)
 RECURSIVE RDetRC(_, _, _, _)
 RDetRC(M, rows, cols, k) ==
   IF k = 0 THEN ONE
-  ELSE RSum(LAMBDA i :
+  ELSE RSumSeq([i \in 1..k |->
               IF RIsZero(M[rows[i]][cols[k]]) THEN ZERO
               ELSE LET t == RMul(M[rows[i]][cols[k]], RDetRC(M, RemoveAt(rows, i), cols, k - 1))
-                   IN  IF Par(i + k) = 1 THEN t ELSE RNeg(t),
-            1..k)
+                   IN  IF Par(i + k) = 1 THEN t ELSE RNeg(t)])
 RDet(M, k) == RDetRC(M, Idx(k), Idx(k), k)
 \* inverse of a k x k matrix by the adjugate; d = its determinant (non-zero)
 RInv(M, k, d) ==
@@ -145,7 +149,7 @@ Wg(I, wu, wd) ==
 \* overlap matrix C^T Wg and overlap
 OMat(I, wg) ==
   TLCEval([b \in 1..NEl(I) |-> [a \in 1..NEl(I) |->
-     RSum(LAMBDA P : RMul(I.c[P][b], wg[P][a]), 1..M2(I))]])
+     RSumSeq([P \in 1..M2(I) |-> RMul(I.c[P][b], wg[P][a])])]])
 Ov(I, wu, wd) == RDet(OMat(I, Wg(I, wu, wd)), NEl(I))
 
 \* Green's function from scratch; requires a non-zero overlap ov
@@ -154,7 +158,7 @@ GreenScratch(I, wu, wd, ov) ==
       inv == RInv(OMat(I, wg), NEl(I), ov)
       x   == RMatMul(wg, inv)                              \* 2n x N
   IN  TLCEval([P \in 1..M2(I) |-> [Q \in 1..M2(I) |->
-         RSum(LAMBDA b : RMul(x[Q][b], I.c[P][b]), 1..NEl(I))]])
+         RSumSeq([b \in 1..NEl(I) |-> RMul(x[Q][b], I.c[P][b])])]])
 
 \* multiply row P of the generalised walker by f (P addresses (up,P) or (down,P-n))
 ScaleRow(I, wu, wd, P, f) ==
@@ -187,7 +191,7 @@ GreenUpdate(g, r, P, Q, cP, cQ, m) ==
   IN  TLCEval([a \in 1..m |-> [b \in 1..m |->
          RAdd(g[a][b], RAdd(RMul(aP, RMul(g[a][P], vP[b])), RMul(aQ, RMul(g[a][Q], vQ[b]))))]])
 
-Trace(g, m) == RSum(LAMBDA P : g[P][P], 1..m)
+Trace(g, m) == RSumSeq([P \in 1..m |-> g[P][P]])
 
 (***************************************************************************)
 (* 3. The step model (propagator_cpmc.propagate, one walker)               *)
@@ -264,29 +268,38 @@ StateHasNaR(s) ==
   \/ (s.gr # <<>> /\ MatHasNaR(s.gr))
 
 (***************************************************************************)
-(* Many-body vectors in the (nu, nd) sector: functions on Cfg = pairs      *)
-(* <<A, B>> of occupied up / down sites.  |W> has component                *)
-(* det wu[A,:] * det wd[B,:]  (alpha string x beta string, as Fock!SDVec). *)
+(* Many-body vectors in the (nu, nd) sector.  A configuration is a pair    *)
+(* <<A, B>> of sorted sequences of occupied up / down sites; CfgSeq lists  *)
+(* them; a vector is a sequence of rationals aligned with CfgSeq.  |W> has *)
+(* component det wu[A,:] * det wd[B,:]  (alpha string x beta string, as    *)
+(* Fock!SDVec).                                                            *)
 (***************************************************************************)
-Cfg(I) == kSubset(I.nu, 1..I.n) \X kSubset(I.nd, 1..I.n)
+CfgSeq(I) == LET ua == SetToSeq(kSubset(I.nu, 1..I.n))
+                 da == SetToSeq(kSubset(I.nd, 1..I.n))
+             IN  [t \in 1..(Len(ua) * Len(da)) |->
+                    <<Sorted(ua[((t - 1) \div Len(da)) + 1]), Sorted(da[((t - 1) % Len(da)) + 1])>>]
 SDVecR(I, wu, wd) ==
-  TLCEval([c \in Cfg(I) |-> RMul(RDetRC(wu, Sorted(c[1]), Idx(I.nu), I.nu),
-                                 RDetRC(wd, Sorted(c[2]), Idx(I.nd), I.nd))])
-VZero(I)       == [c \in Cfg(I) |-> ZERO]
-VAddR(u, v)    == TLCEval([c \in DOMAIN u |-> RAdd(u[c], v[c])])
-VScaleR(k, v)  == TLCEval([c \in DOMAIN v |-> RMul(k, v[c])])
-VHasNaR(v)     == \E c \in DOMAIN v : IsNaR(v[c])
+  LET cs == CfgSeq(I)
+  IN  [t \in DOMAIN cs |-> RMul(RDetRC(wu, cs[t][1], Idx(I.nu), I.nu),
+                                RDetRC(wd, cs[t][2], Idx(I.nd), I.nd))]
+VZero(I)       == [t \in DOMAIN CfgSeq(I) |-> ZERO]
+VAddR(u, v)    == [t \in DOMAIN u |-> RAdd(u[t], v[t])]
+VScaleR(k, v)  == [t \in DOMAIN v |-> RMul(k, v[t])]
+VHasNaR(v)     == \E t \in DOMAIN v : IsNaR(v[t])
 \* second-quantised one-body transformation: the orbital transformation (mu, md) lifted to the
 \* sector (compound matrices); for mu = md = expm(-dt K/2) this is exp(-dt K^/2)
 MHat(I, v) ==
-  TLCEval([c \in Cfg(I) |->
-     RSum(LAMBDA d : IF RIsZero(v[d]) THEN ZERO ELSE
-            RMul(RMul(RDetRC(I.mu, Sorted(c[1]), Sorted(d[1]), I.nu),
-                      RDetRC(I.md, Sorted(c[2]), Sorted(d[2]), I.nd)), v[d]),
-          Cfg(I))])
+  LET cs == CfgSeq(I)
+  IN  [t \in DOMAIN cs |->
+        RSumSeq([d \in DOMAIN cs |->
+           IF RIsZero(v[d]) THEN ZERO ELSE
+           RMul(RMul(RDetRC(I.mu, cs[t][1], cs[d][1], I.nu),
+                     RDetRC(I.md, cs[t][2], cs[d][2], I.nd)), v[d])])]
 \* prod_i exp(-dt U n_i_up n_i_dn) with e^{-dt U} = p q: diagonal, (p q)^(number of doubly occupied sites)
 EDtU(I) == RMul(I.hs[1], I.hs[2])
-DHat(I, v) == TLCEval([c \in Cfg(I) |-> RMul(RPow(EDtU(I), Cardinality(c[1] \cap c[2])), v[c])])
+DHat(I, v) ==
+  LET cs == CfgSeq(I)
+  IN  [t \in DOMAIN cs |-> RMul(RPow(EDtU(I), Cardinality(Range1(cs[t][1]) \cap Range1(cs[t][2]))), v[t])]
 
 \* right-hand side of the property: M^ prod_i(1/2(B_i^0+B_i^1)) M^ |W>/o  (times the initial weight)
 Rhs(I) ==
@@ -325,11 +338,13 @@ CauchyBinet(I) ==
 \* B acts on |W> as the diagonal operator prod p^{n_up} q^{n_dn} of that site (row scaling = operator)
 BDiagonal(I) ==
   \A k \in 1..I.n : \A x \in 0..1 :
-    LET c == HSC(I, x)
-        w == ApplyB(I, I.wu, I.wd, k, I.n + k, RSub(c[1], ONE), RSub(c[2], ONE))
-        v == SDVecR(I, I.wu, I.wd)
+    LET c  == HSC(I, x)
+        w  == ApplyB(I, I.wu, I.wd, k, I.n + k, RSub(c[1], ONE), RSub(c[2], ONE))
+        v  == SDVecR(I, I.wu, I.wd)
+        cs == CfgSeq(I)
     IN  SDVecR(I, w[1], w[2]) =
-          [cf \in Cfg(I) |-> RMul(RMul(IF k \in cf[1] THEN c[1] ELSE ONE, IF k \in cf[2] THEN c[2] ELSE ONE), v[cf])]
+          [t \in DOMAIN cs |-> RMul(RMul(IF k \in Range1(cs[t][1]) THEN c[1] ELSE ONE,
+                                         IF k \in Range1(cs[t][2]) THEN c[2] ELSE ONE), v[t])]
 
 (***************************************************************************)
 (* Lattices: K = -t * adjacency; the harness passes the adjacency matrix   *)
@@ -376,14 +391,14 @@ Init == /\ idx \in DOMAIN Insts
         /\ phase = "new" /\ site = 0 /\ path = <<>> /\ p0s = <<>> /\ st = <<>> /\ aux = <<>>
 
 Load == /\ phase = "new"
-        /\ LET s == Start(Inst) IN
+        /\ \E s \in {Start(Inst)} :
            /\ st' = s
            /\ phase' = IF s.alive /\ ~StateHasNaR(s) THEN "start" ELSE "dead"
            /\ Write("init", [id |-> Inst.id] @@ StRec(s))
         /\ UNCHANGED <<idx, site, path, p0s, aux>>
 
 Half1 == /\ phase = "start"
-         /\ LET s == HalfStep(Inst, st) IN
+         /\ \E s \in {HalfStep(Inst, st)} :
             /\ st' = s
             /\ phase' = IF s.alive /\ ~StateHasNaR(s) THEN "sites" ELSE "dead"
             /\ Write("half1", [id |-> Inst.id] @@ StRec(s))
@@ -392,7 +407,7 @@ Half1 == /\ phase = "start"
 
 Site(x) == /\ phase = "sites" /\ site <= Inst.n
            /\ ~BothRejected(Inst, st, site)
-           /\ LET s == SiteStep(Inst, st, site, x) IN
+           /\ \E s \in {SiteStep(Inst, st, site, x)} :
               /\ s.alive                                    \* field x has non-zero probability
               /\ st' = s
               /\ p0s' = Append(p0s, s.p0)
@@ -409,7 +424,7 @@ Dead == /\ phase = "sites" /\ site <= Inst.n
         /\ UNCHANGED <<idx, site, path, p0s, st, aux>>
 
 Half2 == /\ phase = "sites" /\ site = Inst.n + 1
-         /\ LET s == Final(Inst, HalfStep(Inst, st)) IN
+         /\ \E s \in {Final(Inst, HalfStep(Inst, st))} :
             /\ st' = s
             /\ phase' = "leaf"
             /\ Write("leaf_" \o ToString(PathCode(path)),
@@ -432,15 +447,14 @@ PairResult(I, s, P, Q) ==
 
 Pair(P, Q) == /\ phase = "start" /\ P # Q
               /\ Inst.pairs
-              /\ LET r == PairResult(Inst, st, P, Q) IN
+              /\ \E r \in {PairResult(Inst, st, P, Q)} :
                  /\ aux' = [P |-> P, Q |-> Q, res |-> r]
                  /\ Write("pair_" \o ToString(P) \o "_" \o ToString(Q),
                           [id |-> Inst.id, P |-> P, Q |-> Q, res |-> r])
               /\ phase' = "pair"
               /\ UNCHANGED <<idx, site, path, p0s, st>>
 
-VecSeq(v) == LET cs == SetToSeq(DOMAIN v)
-             IN  [i \in DOMAIN cs |-> [a |-> Sorted(cs[i][1]), b |-> Sorted(cs[i][2]), v |-> v[cs[i]]]]
+VecSeq(I, v) == LET cs == CfgSeq(I) IN [t \in DOMAIN cs |-> [a |-> cs[t][1], b |-> cs[t][2], v |-> v[t]]]
 SumResult(I, s) ==
   LET h   == HalfStep(I, s)
       ok  == h.alive /\ ~StateHasNaR(h)
@@ -451,11 +465,11 @@ SumResult(I, s) ==
        hs_ok |-> HSIdentity(I), cb_ok |-> CauchyBinet(I), bdiag_ok |-> BDiagonal(I), adj_ok |-> AdjOK(I)]
 
 Sum == /\ phase = "start"
-       /\ LET r == SumResult(Inst, st) IN
+       /\ \E r \in {SumResult(Inst, st)} :
           /\ aux' = r
           /\ Write("sum", [id |-> Inst.id, allfree |-> r.allfree, ovf |-> r.ovf, hs_ok |-> r.hs_ok,
                            cb_ok |-> r.cb_ok, bdiag_ok |-> r.bdiag_ok, adj_ok |-> r.adj_ok,
-                           thm |-> r.lhs = r.rhs, lhs |-> VecSeq(r.lhs), rhs |-> VecSeq(r.rhs)])
+                           thm |-> r.lhs = r.rhs, lhs |-> VecSeq(Inst, r.lhs), rhs |-> VecSeq(Inst, r.rhs)])
        /\ phase' = "sum"
        /\ UNCHANGED <<idx, site, path, p0s, st>>
 
